@@ -70,6 +70,9 @@ func (v JV) MarshalJSON() ([]byte, error) {
 			out = append(out, [2]any{kv.K, kv.V})
 		}
 		return json.Marshal(map[string]any{"o": out})
+	case 'r':
+		// an unparsed value (ldvalue.Raw): A[0] is what its text parses to
+		return json.Marshal(map[string]JV{"r": v.A[0]})
 	}
 	return nil, fmt.Errorf("bad JV kind %d", v.K)
 }
@@ -107,6 +110,11 @@ func (v *JV) UnmarshalJSON(data []byte) error {
 		v.K = 'n'
 		v.N = f
 		return nil
+	}
+	if raw, ok := m["r"]; ok {
+		v.K = 'r'
+		v.A = make([]JV, 1)
+		return json.Unmarshal(raw, &v.A[0])
 	}
 	if raw, ok := m["a"]; ok {
 		v.K = 'a'
@@ -153,6 +161,8 @@ func (v JV) toLD() ldvalue.Value {
 			b.Set(kv.K, kv.V.toLD())
 		}
 		return b.Build().AsValue()
+	case 'r':
+		return ldvalue.Raw(json.RawMessage(v.A[0].plainJSON()))
 	}
 	return ldvalue.Null()
 }
@@ -180,7 +190,7 @@ func fromLD(v ldvalue.Value) JV {
 		}
 		return out
 	case ldvalue.RawType:
-		return fromLD(ldvalue.Parse(v.AsRaw()))
+		return JV{K: 'r', A: []JV{fromLD(ldvalue.Parse(v.AsRaw()))}}
 	}
 	return jNull()
 }
